@@ -341,7 +341,8 @@ def gen_init(rng, tier):
 # ------------------------------------------------------------------------------------------------
 
 DELAYS = (["", "", "", "0", "10", "40", " 5", "+7", "2147483647"], ["-1", "abc", "10abc", "1.5", "99999999999", "5 ", "2147483648", "0x10"])
-SILENCE = (["", "", "engine", "plugins", "engine,plugins", " engine , plugins ", "engine,,plugins", ",", "  "], ["bogus", "engine,bogus", "Engine", "engine plugins"])
+SILENCE = (["", "", "engine", "plugins", "engine,plugins", " engine , plugins ", "engine,,plugins", ",", "  ",
+            "engine,engine", "plugins,plugins", "engine,plugins,engine", "plugins,engine,plugins,engine", "plugins, plugins ,plugins"], ["bogus", "engine,bogus", "Engine", "engine plugins"])
 DETECTORS = None
 ACTIONS = None
 
